@@ -32,6 +32,7 @@ type PropConfig struct {
 	FPSolver    string            `json:"fp_solver"`    // solver for queries with FP terms
 	Mutators    map[string][]string `json:"mutators"`   // invariant fields → allowed writer functions (§2.10)
 	ExtraStubs  []string          `json:"extra_stubs"`
+	IntMode     string            `json:"int_mode"` // regexp on harness names encoded with integers instead of bit-vectors
 }
 
 var (
@@ -431,6 +432,9 @@ func main() {
 		fatal("props/%s.json: %v", *prop, err)
 	}
 	subjectPkg = cfg.Subject
+	if cfg.IntMode != "" {
+		intModeRe = regexp.MustCompile(cfg.IntMode)
+	}
 	stubPkgs = append(stubPkgs, cfg.ExtraStubs...)
 	outDir := filepath.Join(verifDir, "out", cfg.ID)
 	os.MkdirAll(outDir, 0o755)
@@ -527,6 +531,7 @@ func discharge(cfg *PropConfig, hr *HarnessResult, getPool func(string) *Pool, s
 		res  QueryResult
 		body string
 		vars []string
+		intMode bool
 	}
 	var js []*job
 	base := func(o *Obligation) []*Term {
@@ -571,6 +576,12 @@ func discharge(cfg *PropConfig, hr *HarnessResult, getPool func(string) *Pool, s
 			j.res = QueryResult{Verdict: "unsat", Raw: "folded"}
 			continue
 		}
+		if intModeRe != nil && intModeRe.MatchString(hr.Name) {
+			if b, v, ok := buildQueryInt(j.conj); ok {
+				j.body, j.vars, j.intMode = b, v, true
+				continue
+			}
+		}
 		j.body, j.vars = buildQuery(j.conj)
 	}
 	var wg sync.WaitGroup
@@ -588,7 +599,18 @@ func discharge(cfg *PropConfig, hr *HarnessResult, getPool func(string) *Pool, s
 			if hasFP(j.conj) {
 				sn = fpSolver
 			}
+			if j.intMode {
+				sn = "z3-new" // z3 4.8.12 is two orders of magnitude slower on the mod-2^64 integer encoding
+			}
 			j.res = getPool(sn).query(j.body, j.vars, timeout)
+			if j.intMode && j.res.Verdict != "sat" && j.res.Verdict != "unsat" {
+				// second chance with the bit-vector encoding
+				b, v := buildQueryLocked(j.conj)
+				r2 := getPool(sn).query(b, v, timeout)
+				if r2.Verdict == "sat" || r2.Verdict == "unsat" {
+					j.body, j.vars, j.res = b, v, r2
+				}
+			}
 			if j.res.Verdict == "error" && sn == "z3" {
 				// retry once on the newer z3
 				j.res = getPool("z3-new").query(j.body, j.vars, timeout)
@@ -627,6 +649,11 @@ func discharge(cfg *PropConfig, hr *HarnessResult, getPool func(string) *Pool, s
 		}
 	}
 }
+
+var intModeRe *regexp.Regexp
+
+// buildQuery only reads the term store, so it may be called from worker goroutines
+func buildQueryLocked(conj []*Term) (string, []string) { return buildQuery(conj) }
 
 func sanitize(s string) string {
 	return regexp.MustCompile(`[^A-Za-z0-9_.-]+`).ReplaceAllString(s, "_")
